@@ -317,6 +317,10 @@ func (p *Prog) addCallee(w *wset, caller, callee *ssa.Function, cc *ssa.CallComm
 		calls[caller] = append(calls[caller], callee)
 		return
 	}
+	if !isRepoFunc(callee) && writesThroughIface[shortName(callee.String())] {
+		w.setAll("library function writing through an interface argument: " + callee.String())
+		return
+	}
 	if !isRepoFunc(callee) {
 		// library function: reaches repository state only through its arguments and closures passed to it
 		for _, a := range cc.Args {
